@@ -286,6 +286,9 @@ class SInt:
         tb = self._table()
         if tb is not None:
             return tb.map(lambda v: v // k, self.t / k)
+        sp = split_linear(self.t, k)
+        if sp is not None:
+            return sp[0]
         return mk_int(self.t / k)
 
     def __mod__(self, o):
@@ -293,10 +296,17 @@ class SInt:
         tb = self._table()
         if tb is not None:
             return tb.map(lambda v: v % k, self.t % k)
+        sp = split_linear(self.t, k)
+        if sp is not None:
+            return sp[1]
         return mk_int(self.t % k)
 
     def __divmod__(self, o):
         return (self // o, self % o)
+
+    def __truediv__(self, o):
+        # true division gives a float: kept as an unevaluated quotient; only int() of it is modelled (see models.sh_int)
+        return SQuot(self, self._posconst(o))
 
     # comparisons
     def __lt__(self, o):
@@ -451,6 +461,82 @@ def _lin1(t):
     return None
 
 
+def _lin_multi(t):
+    """t == sum(c_i * x_i) + b over uninterpreted integer constants?  -> ({name: (x, c)}, b) or None"""
+    if z3.is_int_value(t):
+        return ({}, t.as_long())
+    k = t.decl().kind()
+    if k == z3.Z3_OP_UNINTERPRETED and t.num_args() == 0:
+        return ({t.decl().name(): (t, 1)}, 0)
+    if k == z3.Z3_OP_MUL and t.num_args() == 2:
+        a, b = t.arg(0), t.arg(1)
+        if z3.is_int_value(b):
+            a, b = b, a
+        if z3.is_int_value(a):
+            r = _lin_multi(b)
+            if r is None:
+                return None
+            c = a.as_long()
+            return ({n: (x, cc * c) for n, (x, cc) in r[0].items()}, r[1] * c)
+        return None
+    if k == z3.Z3_OP_ADD:
+        coefs, const = {}, 0
+        for i in range(t.num_args()):
+            r = _lin_multi(t.arg(i))
+            if r is None:
+                return None
+            for n, (x, c) in r[0].items():
+                coefs[n] = (x, coefs.get(n, (x, 0))[1] + c)
+            const += r[1]
+        return (coefs, const)
+    return None
+
+
+def split_linear(t, k):
+    """positional arithmetic: t = k*A + R with R a linear remainder whose range (from the variables' known bounds) lies in [0, k)
+    => t div k == A and t mod k == R.  The schematic lemma (for all A, R: 0 <= R < k -> (k*A+R) div k == A and (k*A+R) mod k == R) is
+    discharged by z3 once per k.  Returns (quotient, remainder) as int/SInt, or None when the shape does not apply."""
+    r = _lin_multi(t)
+    if r is None or len(r[0]) < 2:
+        return None
+    coefs, const = r
+    lo = hi = const % k
+    A = z3.IntVal(const // k)
+    R = z3.IntVal(const % k)
+    for n, (x, c) in coefs.items():
+        bd = BOUNDS.get(n)
+        if bd is None:
+            return None
+        q, rem = divmod(c, k)
+        if q:
+            A = A + q * x
+        if rem:
+            R = R + rem * x
+            lo += rem * bd[0]
+            hi += rem * bd[1]
+    if lo < 0 or hi >= k:
+        return None
+    _prove_split_lemma(k)
+    return (mk_int(A), mk_int(R))
+
+
+def _prove_split_lemma(k):
+    key = ('split', k)
+    if key in _LEMMA_CACHE:
+        return
+    a, r = z3.Ints('lemma_A lemma_R')
+    s = z3.Solver()
+    s.set('timeout', 20000)
+    s.add(r >= 0, r < k, z3.Or((k * a + r) / k != a, (k * a + r) % k != r))
+    t0 = time.time()
+    res = s.check()
+    LEMMAS['seconds'] += time.time() - t0
+    if res != z3.unsat:
+        raise Inconclusive('split lemma for divisor %d not proved (%s)' % (k, res))
+    LEMMAS['proved'] += 1
+    _LEMMA_CACHE[key] = True
+
+
 def table_of_linear(x):
     r = _lin1(x.t)
     if r is None:
@@ -469,6 +555,30 @@ def table(x, fn):
     if tb is None:
         raise Unsupported('table() needs a small-range variable')
     return tb.map(fn)
+
+
+class SQuot:
+    """x / k as CPython computes it (IEEE double), unevaluated.  int(x / k): exact floor for 0 <= x < 2**53 and k == 10 (the quotient is
+    below 2**50 where doubles are spaced 1/8 apart and the fraction j/10 never rounds across an integer); otherwise any integer within
+    the rounding error of the division -- a nondeterministic value, so precision loss on long numbers is visible to the solver"""
+    def __init__(self, x, k):
+        self.x = x
+        self.k = k
+
+    def to_int(self):
+        x, k = self.x, self.k
+        if k == 10:
+            if s_and(x >= 0, x < 2 ** 53):
+                return x // k
+        ex = cur()
+        q = ex.fresh_int('floatdiv')
+        err = (x // (2 ** 50)) + k + 1 if not isinstance(x, int) else abs(x) // (2 ** 50) + k + 1
+        ex.assume(mk_bool(lift(q) * k - lift(x) <= lift(err)))
+        ex.assume(mk_bool(lift(x) - lift(q) * k <= lift(err)))
+        return q
+
+    def __int__(self):
+        raise Unsupported('int() of a symbolic float outside the shadowed call sites')
 
 
 def s_min(a, b):
